@@ -292,11 +292,11 @@ end S3V.FsStore
 namespace S3V.FsStore
 open S3V.StoreSpec
 
-/-- `upload_part` comparable: the part number is too large (refused by both), or it is at least 1
-    [else fs:part-number-not-validated] and the upload does not exist (`NoSuchUpload` on both sides) or was created for this
-    bucket and key [else fs:upload-not-bound-to-key] -/
-def UploadPartOk (s : State) (b k : Bytes) (u : UploadRef) (n : Int) : Prop :=
-  n > 10000 ∨ (1 ≤ n ∧ UploadOk s u b k)
+/-- `upload_part` comparable: the upload does not exist (`NoSuchUpload` on both sides) or was created for this bucket and key
+    [else fs:upload-not-bound-to-key]; any part number (outside 1..10000: `InvalidArgument` on both sides since 531fc88;
+    before: fs:part-number-not-validated) -/
+def UploadPartOk (s : State) (b k : Bytes) (u : UploadRef) (_n : Int) : Prop :=
+  UploadOk s u b k
 
 /-- an upload with part `n` (re)written -/
 def withPart (up : Upload) (n : Int) (c : Bytes) : Upload := { up with parts := alInsert n c up.parts }
@@ -344,34 +344,28 @@ theorem uploadPart_refines (H : Hashes) (dl : Nat) {s : State} (hi : Inv s) {who
     (step H dl s (.uploadPart who b k u n c)).2 = (StoreSpec.step H (abs s) (.uploadPart who b k u n c)).2 ∧
     abs (step H dl s (.uploadPart who b k u n c)).1 = (StoreSpec.step H (abs s) (.uploadPart who b k u n c)).1 ∧
     Inv (step H dl s (.uploadPart who b k u n c)).1 := by
-  rcases hg with hbig | ⟨h1, hbound⟩
-  · have : n < 1 ∨ n > 10000 := Or.inr hbig
-    simp [step, StoreSpec.step, hbig, this, hi]
-  · by_cases hbig : n > 10000
-    · have : n < 1 ∨ n > 10000 := Or.inr hbig
-      simp [step, StoreSpec.step, hbig, this, hi]
-    · have hrange : ¬ (n < 1 ∨ n > 10000) := by omega
-      rcases hbound.cases with hbound | habs
-      case inr =>
-        have hup := habs.upload b k
-        have hn1 : ¬ n < 1 := by omega
-        cases u with
-        | none => simp [step, StoreSpec.step, hbig, hn1, hup, hi]
-        | some id => simp [step, StoreSpec.step, hbig, hn1, hup, habs.verify who, hi]
-      obtain ⟨id, ui, rfl, hl, hb, hk, hup⟩ := hbound.spec
-      by_cases hown : ui.owner = who
-      · have hstep : step H dl s (.uploadPart who b k (some id) n c) =
-            ({ s with parts := alInsert (id, n) c s.parts }, .part (some (etagOf H c))) := by
-          simp [step, hbig, State.verify, hl, hown]
-        have hspec : StoreSpec.step H (abs s) (.uploadPart who b k (some id) n c) =
-            ({ abs s with uploads := alInsert id (withPart (upOf s id ui) n c) (abs s).uploads }, .part (some (etagOf H c))) := by
-          simp [StoreSpec.step, hrange, hup, upOf, hown, withPart]
-        rw [hstep, hspec]
-        obtain ⟨h1, h2⟩ := writePart_core (s' := { s with parts := alInsert (id, n) c s.parts }) hi hl rfl rfl rfl rfl rfl rfl rfl
-        exact ⟨rfl, h1, h2⟩
-      · have hown' : (upOf s id ui).owner ≠ who := hown
-        have hn1 : ¬ n < 1 := by omega
-        simp [step, StoreSpec.step, hbig, hn1, State.verify, hl, hown, hup, hown', hi]
+  have hbound : UploadOk s u b k := hg
+  by_cases hrange : n < 1 ∨ n > 10000
+  · simp [step, StoreSpec.step, hrange, hi]
+  · rcases hbound.cases with hbound | habs
+    case inr =>
+      have hup := habs.upload b k
+      cases u with
+      | none => simp [step, StoreSpec.step, hrange, hup, hi]
+      | some id => simp [step, StoreSpec.step, hrange, hup, habs.verify who, hi]
+    obtain ⟨id, ui, rfl, hl, hb, hk, hup⟩ := hbound.spec
+    by_cases hown : ui.owner = who
+    · have hstep : step H dl s (.uploadPart who b k (some id) n c) =
+          ({ s with parts := alInsert (id, n) c s.parts }, .part (some (etagOf H c))) := by
+        simp [step, hrange, State.verify, hl, hown]
+      have hspec : StoreSpec.step H (abs s) (.uploadPart who b k (some id) n c) =
+          ({ abs s with uploads := alInsert id (withPart (upOf s id ui) n c) (abs s).uploads }, .part (some (etagOf H c))) := by
+        simp [StoreSpec.step, hrange, hup, upOf, hown, withPart]
+      rw [hstep, hspec]
+      obtain ⟨h1, h2⟩ := writePart_core (s' := { s with parts := alInsert (id, n) c s.parts }) hi hl rfl rfl rfl rfl rfl rfl rfl
+      exact ⟨rfl, h1, h2⟩
+    · have hown' : (upOf s id ui).owner ≠ who := hown
+      simp [step, StoreSpec.step, hrange, State.verify, hl, hown, hup, hown', hi]
 
 /-- `list_parts` comparable: the upload does not exist (`NoSuchUpload` on both sides since 38336b0; before:
     fs:list-parts-unknown-upload) or was created for this bucket and key [else fs:upload-not-bound-to-key] -/
